@@ -621,11 +621,18 @@ package analysis
 //@ fun synced(s *Spec) bool reads heaps DOC, heaps INDEX
 //@ heaps FCTX = context, newRef, map[string]*newRef, []string
 
+// well-formedness of the flatten bookkeeping and of index keys (safety invariants, C09)
+//@ fun ctxWF(c *context) bool = c != nil && c.newRefs != nil && c.resolved != nil && (forall k in dom(c.newRefs) :: len(k) >= 1 && c.newRefs[k] != nil && c.newRefs[k].schema != nil && c.newRefs[k].key in dom(c.newRefs) && len(c.newRefs[k].path) >= 1 && (forall i in 0..len(c.newRefs[k].parents) :: len(c.newRefs[k].parents[i]) >= 1))
+//@ fun idxKeysWF(s *Spec) bool = (forall k in dom(s.references.allRefs) :: len(k) >= 1 && s.references.allRefs[k].String() != "") && (forall k in dom(s.references.schemas) :: len(k) >= 1 && s.references.schemas[k].String() != "") && (forall k in dom(s.allSchemas) :: len(k) >= 1)
+//@ fun optsWF(opts *FlattenOpts) bool = opts != nil && opts.Spec != nil && opts.Spec.spec != nil && opts.flattenContext != nil && ctxWF(opts.flattenContext) && strfmt.Default != nil
+
+// reload re-analyzes: it establishes synced (C10) and, because every index key is "#" + a pointer and only non-empty
+// $refs are registered, the key well-formedness idxKeysWF (trusted here; the walk itself is verified in C11-C13)
 //@ func (s *Spec) reload()
 //@   assumed
 //@   requires s != nil
 //@   modifies heaps INDEX
-//@   ensures synced(s) && s.spec == old(s.spec)
+//@   ensures synced(s) && s.spec == old(s.spec) && idxKeysWF(s)
 
 //@ func importExternalReferences(opts)
 //@   assumed
